@@ -24,6 +24,7 @@ groups = {
     "s3": {"pkg": "s3", "hdir": "harness/s3", "tags": ""},
     "internal": {"pkg": "internal", "hdir": "harness/internal", "tags": ""},
     "file": {"pkg": "file", "hdir": "harness/file", "tags": ""},
+    "vfs": {"pkg": ".", "hdir": "harness/vfs", "tags": "vfs"},
 }
 
 props = {}
@@ -158,6 +159,8 @@ claims = {
             "E-WAL is an assumption about SQLite (tested against real SQLite while writing DESIGN.md). Five defects were found here and repaired (H1, H2, H3 twice, H9).", "DESIGN.md 5 (C04), D.4, 7"),
     "C01": ("Decided as a composition: VxC01Sync executes the real DB.sync (WAL reader, pageMap, writeLTXFromWAL / writeLTXFromDB, real LTX encoder) on a WAL whose frames after the cursor are symbolic (page numbers 1-4, images, commit marks, open tail) and checks the published file: numbered pos+1, holds a page iff it changed in a committed transaction of the range or lies in the growth range, with the latest committed image, header commit = last commit, synced offset = end of the last commit, synced-to-end flag exact. The other obligations are the harnesses of C04 (continuity), C09 (frame selection), C05 (acknowledgement), C14 (checkpoint step's SQL), C08/C06/C10 (restore).",
             "The end-to-end statement is a paper composition of separately decided obligations; no single symbolic history runs through sync, checkpoint, upload and restore.", "DESIGN.md 5 (C01)"),
+    "C18": ("The real VFS read path under the vfs build tag - CalcRestorePlan, rebuildIndex/buildIndexMap, FetchPageIndex, FetchLTXHeader, FetchPage, ltx.DecodePageIndex/DecodePageData, pollReplicaClient/pollLevel, Lock/Unlock with the pending index, the LRU page cache, ReadAt, FileSize, SetTargetTime/ResetTime - is executed symbolically over replicas produced by the real ltx encoder from generated primary histories (growth, update, partial shrink, VACUUM) and schedules of uploads, level-1 compactions, level-0 retention, reader locks and polls: at open, after every poll (successful or failed) and in a time-travel view, FileSize and every page equal the restore at VFSFile.Pos(), the position never moves backwards, a time-travel view sits at the last transaction before the requested time and is not disturbed by polls.",
+            "Two defects found here were repaired (H6 index replaced/untrimmed on shrink, H10 older level-1 file laid over newer level-0 pages). SQLite reading through the VFS, hydration and the write path are outside the claim.", "DESIGN.md 5 (C18), 7 (H6, H10)"),
 }
 na_reasons = {
     "C12": "quantifies over goroutine interleavings and the Go memory model; a sequential SSA symbolic interpreter cannot soundly decide races or deadlocks and no concurrency-aware engine for Go exists in this image (DESIGN.md 6)",
@@ -393,6 +396,25 @@ props["C01"] = {
     ],
     "stubs": ["as in the harnesses named"],
     "outside": ["SQLite's integrity check of the restored file", "page images of a real database", "the checkpoint step's interaction with application commits between litestream's sealing sync and the checkpoint (the real checkpointWithExecutor is exercised over symsql in C14 with the WAL copying cut out; an end-to-end symbolic history through checkpoints is not built)"],
+}
+
+props["C18"] = {
+    "level": "model_checking", "validate": 6,
+    "runs": [
+        run("vfs", "VxC18Open", {"N": 3, "P": 3}, {"N": 4, "P": 3}),
+        run("vfs", "VxC18Poll", {"N0": 1, "K": 2, "R": 1, "P": 3}, {"N0": 2, "K": 1, "R": 2, "P": 2}),
+        run("vfs", "VxC18Poll", None, {"N0": 1, "K": 1, "R": 3, "P": 2}, tier="thorough", note="three polls"),
+        run("vfs", "VxC18TimeTravel", {"N": 2, "P": 3}, {"N": 3, "P": 3}),
+    ],
+    "assumptions": [
+        "primary histories: every transaction commits a size of 1..P pages, writes every page of the range it grows the database by (what litestream's writer guarantees, C01/C17) and otherwise either one page of the surviving range (update, partial shrink) or all of them (VACUUM)",
+        "a compacted file (snapshot, level 1) holds the newest image of every page its inputs touch inside the final size (decided for the real compactor by C06); level-0 retention removes only files already compacted into level 1 (C07)",
+        "a reader that held the shared lock during a poll releases it before the next statement; the view is compared after the release",
+        "backends list a level sorted by TXID and honour the seek TXID (MinTXID >= seek) and range reads",
+        "codec model as in C06 (lz4 identity, crc64 constant); page numbers are case-split because they key Go maps; page images are symbolic 8-byte tags",
+    ],
+    "stubs": ["ReplicaClient mock storing the encoded files with range reads", "lz4 identity, crc64 constant", "crypto/rand arbitrary bytes", "log/slog no-op", "the poll loop's goroutine and ticker are not run: pollReplicaClient is called at the chosen poll points"],
+    "outside": ["SQLite itself reading through the VFS (cgo)", "the hydrated local copy (Hydrator), the write-enabled VFS and its conflict detection", "level-2+ files appearing after open (the poll reads levels 0 and 1 only)", "a poll overlapping a read from another goroutine (C12)", "more than P pages / the stated numbers of transactions and polls", "liveness: a poll that fails leaves the view unchanged, which is all that is asserted for it"],
 }
 
 rewrites = [
